@@ -25,6 +25,7 @@ type Engine struct {
 	Trusted    map[string]bool // names of trusted contracts/intrinsics actually used
 	Notes      map[string]bool // modelling notes (inline, unsupported) actually hit
 	LockHook   lockHook
+	GhostFns   map[string]*GhostFn
 }
 
 type Intrinsic func(r *FnRun, st *State, call ssa.CallInstruction, args []Val) (Val, bool)
@@ -73,6 +74,8 @@ type FnRun struct {
 	LazyDecls    []LogItem
 	lazyDeclared map[string]bool
 	arrSorts     map[string]Sort
+	ghostDecls   map[string]string
+	intMode      bool
 	FnName   string
 }
 
@@ -84,6 +87,8 @@ type loopInfo struct {
 	mems    map[string]bool
 	allMem  bool
 	hasCall bool
+	hasWait bool
+	atomics bool
 }
 
 func (r *FnRun) freshName(hint string) string {
@@ -118,6 +123,7 @@ func (e *Engine) VerifyFunc(fn *ssa.Function, c *FuncContract) (run *FnRun) {
 		loops: map[*ssa.BasicBlock]*loopInfo{}, siteCnt: map[string]int{}, siteIdx: map[ssa.Instruction]int{}, FnName: shortFn(fn)}
 	r.implicit = c.Opts["implicit_panics"] == "allowed"
 	IntMode = c.Arith == "int"
+	r.intMode = IntMode
 	defer func() { IntMode = false }()
 	defer func() {
 		if x := recover(); x != nil {
@@ -357,6 +363,48 @@ func (r *FnRun) loopCallEffect(li *loopInfo, c ssa.CallInstruction) {
 		return
 	}
 	name := fullName(callee)
+	if k, ok := lockOps[name]; ok {
+		if k == lkWait || k == lkLock {
+			li.hasWait = true
+			for _, l := range r.C.Locks {
+				for _, p := range l.Protects {
+					for _, item := range strings.Split(p, ",") {
+						item = strings.TrimSpace(item)
+						if strings.HasPrefix(item, "bytes(") || !strings.Contains(item, ".") {
+							li.mems["M8"] = true
+							continue
+						}
+						j := strings.LastIndex(item, ".")
+						base, fname := strings.TrimSpace(item[:j]), item[j+1:]
+						for _, prm := range r.Fn.Params {
+							if prm.Name() != base {
+								continue
+							}
+							if pt, ok := prm.Type().Underlying().(*types.Pointer); ok {
+								if stt, ok := pt.Elem().Underlying().(*types.Struct); ok {
+									for i := 0; i < stt.NumFields(); i++ {
+										if stt.Field(i).Name() == fname {
+											if comps, ok := r.fieldComps(structKey(pt.Elem()), stt, i); ok {
+												for _, c := range comps {
+													li.mems[c.Arr] = true
+												}
+											}
+										}
+									}
+								}
+							}
+						}
+					}
+				}
+			}
+		}
+		return
+	}
+	if strings.HasPrefix(name, atomicPkg+".") {
+		li.atomics = true
+		li.allMem = true
+		return
+	}
 	switch name {
 	case clitePkg + ".Advance", rtPkg + "/math.MulUintptr":
 		return
@@ -547,6 +595,11 @@ func (r *FnRun) execBlockPhi(b *ssa.BasicBlock, from *ssa.BasicBlock, st *State,
 				st.loopM[b] = st.name("measure", env.evalTerm(cl.E))
 			}
 		}
+		if li.hasWait && st.csAcq != nil {
+			// the head of an arbitrary iteration is (re)entered right after an acquisition
+			st.csAcq = st.clone()
+			st.csAcq.csAcq = st.csAcq
+		}
 		st.addTrace("loop %d: arbitrary iteration", li.ord)
 	}
 	r.execFrom(b, 0, st)
@@ -619,6 +672,11 @@ func (r *FnRun) havocLoop(st *State, li *loopInfo, b *ssa.BasicBlock) {
 	}
 	if li.allMem || li.hasCall {
 		st.epoch++
+	}
+	if li.atomics {
+		for _, g := range []string{"cas_dec", "cas_other", "add_one", "add_other", "stores"} {
+			st.ghost["ghost:"+g] = st.declare(r.freshName("gh_"+g), BV(32, false))
+		}
 	}
 }
 
@@ -1224,7 +1282,7 @@ func (r *FnRun) load(st *State, ins ssa.Instruction, p Val, t types.Type) Val {
 		return cloneVal(r.cellGet(st, lp))
 	}
 	if fp, ok := p.(*FieldPtr); ok {
-		r.checkLockedAccess(st, ins, fp.Addr, t, "read")
+		r.checkFieldAccess(st, ins, fp, "read")
 		return r.loadField(st, fp)
 	}
 	addr, ok := p.(Term)
@@ -1325,7 +1383,7 @@ func (r *FnRun) store(st *State, ins ssa.Instruction, p Val, v Val, t types.Type
 		return
 	}
 	if fp, ok := p.(*FieldPtr); ok {
-		r.checkLockedAccess(st, ins, fp.Addr, t, "write")
+		r.checkFieldAccess(st, ins, fp, "write")
 		r.storeField(st, fp, v, false)
 		return
 	}
@@ -1584,9 +1642,18 @@ func (r *FnRun) finish() {
 			}
 			// "at exactly that point": no caller-visible heap write before the panic
 			if c.Opts["panic_writes"] != "allowed" {
+				var ms *modSpec
+				if len(c.Locks) > 0 {
+					// state protected by a lock may be changed by other threads meanwhile
+					ms = &modSpec{fields: map[string][]Term{}}
+					env := r.env(r.Entry, r.Entry)
+					for _, l := range c.Locks {
+						r.addProtects(env, l, ms)
+					}
+				}
 				for _, m := range allArrays(o.St) {
 					if o.St.mem[m].S != r.arr(r.Entry, m).S {
-						r.addGoal(o.St, "panic-before-writes", m, r.frameTerm(o.St, m, nil), nil)
+						r.addGoal(o.St, "panic-before-writes", m, r.frameTerm(o.St, m, ms), nil)
 					}
 				}
 			}
@@ -1607,11 +1674,12 @@ func (r *FnRun) finish() {
 	if nret == 0 && len(c.ByKind("ensures")) > 0 && len(r.Unsupp) == 0 {
 		r.Unsupp = append(r.Unsupp, "no returning path reached")
 	}
-	// canary: `ensures false` on the first returning path must fail
+	// canary: `ensures false` on a returning path must fail (some return is reachable)
+	n := 0
 	for _, o := range r.Outcomes {
-		if o.Kind == "return" {
-			r.addGoalRaw(&Goal{Oblig: r.FnName + "/canary.return-reachable", Prefix: o.St.log[:len(o.St.log):len(o.St.log)], Goal: False, Expect: "sat"})
-			break
+		if o.Kind == "return" && n < 12 {
+			n++
+			r.addGoalRaw(&Goal{Oblig: r.FnName + "/canary.return-reachable", Prefix: o.St.log[:len(o.St.log):len(o.St.log)], Goal: False, Expect: "sat-any"})
 		}
 	}
 }
